@@ -82,6 +82,9 @@ func genDelegationExtension(ipv4Netblocks []net.IPNet) (*pkix.Extension, error) 
 
 func decodeIPV4AddressChoice(encodedBlock asn1.BitString) (net.IPNet, error) {
 	var encodedIP [4]byte
+	if encodedBlock.BitLength > 32 || len(encodedBlock.Bytes) > len(encodedIP) {
+		return net.IPNet{}, errors.New("invalid ipv4 address block: too long")
+	}
 	for i := 0; (i * 8) < encodedBlock.BitLength; i++ {
 		encodedIP[i] = encodedBlock.Bytes[i]
 	}
